@@ -253,11 +253,21 @@ func (r *Reader) initFields() error {
 			r.m[ent.Name] = ent
 		}
 		if ent.Type == "reg" && ent.ChunkSize > 0 && ent.ChunkSize < ent.Size {
-			r.chunks[ent.Name] = make([]*TOCEntry, 0, ent.Size/ent.ChunkSize+1)
-			r.chunks[ent.Name] = append(r.chunks[ent.Name], ent)
+			// NOTE: sizes come from the untrusted TOC; don't use them as a capacity hint.
+			r.chunks[ent.Name] = append(make([]*TOCEntry, 0), ent)
 		}
 		if ent.ChunkSize == 0 && ent.Size != 0 {
 			ent.ChunkSize = ent.Size
+		}
+		if ent.isDataType() {
+			// Sizes and offsets come from the untrusted TOC. Readers of this package
+			// and of the filesystem advance by the chunk size, so a negative value or
+			// an empty chunk of a non-empty file would make them loop forever or slice
+			// with negative bounds.
+			if ent.Size < 0 || ent.Offset < 0 || ent.InnerOffset < 0 || ent.ChunkOffset < 0 || ent.ChunkSize < 0 ||
+				(ent.ChunkSize == 0 && (ent.Type == "chunk" || ent.Size > 0)) {
+				return fmt.Errorf("invalid size or offset in the entry %q", ent.Name)
+			}
 		}
 	}
 
